@@ -1980,6 +1980,11 @@ def e2e_keys(fmt, recs, answer):
 
 SRC_THEOREMS = ['GV.C20Src.' + t for t in (
     'convertDt_eq', 'convertDt_none', 'field_spec', 'shpGetDt_eq', 'gpdGetDt_eq',
+    'loop1_step', 'loop1_eq', 'loop3_step', 'loop3_eq', 'convertDt_get', 'loop4_step', 'loop4_eq', 'incl_eq', 'loop2_step',
+    'loop2_eq', 'toShapefile_eq', 'shpGetDt_range', 'filter_eq_dictDel', 'rloop2_step', 'rloop2_eq', 'rloop1_step', 'rloop1_eq',
+    'convLit_eq', 'fromShapefile_eq', 'toP_get', 'strSet_keys', 'toGeopandas_eq',
+    'gpdGetDt_range', 'propFields_contains', 'gloop1_step', 'gloop1_eq', 'fromGeopandas_eq',
+    'tiToFastkml_eq', 'toFastkmlPlacemark_eq', 'toFastkmlFolder_eq', 'kml_roundtrip_partial_src', 'tiFromFastkml_eq', "filter_eq_dictDel'", 'dictDel_comm',
     'srcReadShp_eq', 'srcFromGeopandas_eq', 'shp_roundtrip_partial_src', 'gpd_roundtrip_partial_src')]
 
 
